@@ -26,6 +26,7 @@ BACKENDS = FFT + NTT
 FUSED = ["auto_add", "auto_add_assign", "auto_sub", "auto_sub_assign", "auto_subneg", "auto_subneg_assign"]
 AUTO = ["auto", "auto_assign"] + FUSED
 GLWE_OPS = ["ks", "ks_assign"] + AUTO + ["trace", "trace_assign"]
+PACK = ["pack", "packer"]
 STALE_KEY = "poulpy-core/src/automorphism/glwe_ct.rs:glwe_automorphism_{add,sub,sub_negate}{,_assign}:res_dft-not-zeroed:dsize>=3"
 
 
@@ -151,7 +152,10 @@ def parse_answer(line):
 def harness_line(cid, c, be, dirty):
     keys = ["op", "n", "bin", "bkey", "bout", "kin", "kkey", "kout", "rin", "rout", "dsize", "dnum", "seed", "cls", "p", "skip",
             "idx", "nlin", "nlout"]
-    return f"{cid} " + " ".join(f"{k}={c[k]}" for k in keys) + f" be={be} dirty={dirty}"
+    extra = ""
+    if c["op"] in PACK:
+        extra = f" slots={','.join(str(x) for x in c['slots']) or '-'} lgap={c['lgap']}"
+    return f"{cid} " + " ".join(f"{k}={c[k]}" for k in keys) + extra + f" be={be} dirty={dirty}"
 
 
 def sout_of(c):
@@ -161,7 +165,7 @@ def sout_of(c):
 def model_line(cid, c, ans, big):
     return (f"{cid} ks op={c['op']} big={big} n={c['n']} bin={c['bin']} bkey={c['bkey']} bout={c['bout']} sout={sout_of(c)} "
             f"rin={c['rin']} rout={c['rout']} dsize={c['dsize']} skip={c['skip']} idx={c['idx']} nlin={c['nlin']} nlout={c['nlout']} "
-            f"dft0={(cid % 3) * 12345} "
+            f"dft0={(cid % 3) * 12345} lgap={c.get('lgap', 0)} "
             f"keys={ans['keys']} a={ans['a']}")
 
 
@@ -273,6 +277,69 @@ def generate(ctx, rng):
     for c in cases:
         if c["op"] == "extract":
             c["bout"] = c["bin"]
+    cases += generate_pack(ctx, rng)
+    return cases
+
+
+def pack_shape(rng, op, n, slots, lgap, ntt_only=False):
+    """small key / ciphertext shapes for the packing trees (many key-switches per case)"""
+    c = shape(rng, "trace", n, ntt_only=ntt_only, force={"dsize": rng.choice([1, 1, 2, 3])})
+    c["op"] = op
+    c["rin"] = c["rout"] = rng.choice([1, 1, 2])
+    c["slots"], c["lgap"] = list(slots), lgap
+    c["cls"] = rng.choice(["raw", "enc", "enc", "ext", "alt"])
+    if op == "packer":                       # accumulators and result share the layout of the inputs
+        c["bout"], c["kout"] = c["bin"], ceil_div(c["kin"], c["bin"]) * c["bin"]
+    return c
+
+
+def subsets_of(k):
+    return [[i for i in range(k) if (m >> i) & 1] for m in range(1, 1 << k)]
+
+
+def generate_pack(ctx, rng):
+    """every subset of slots for the configurations with <= 8 slots, random subsets beyond"""
+    quick = ctx.tier == "quick"
+    cases = []
+    for n in ([8] if quick else [8, 16, 32]):
+        logn = n.bit_length() - 1
+        for L in range(0, 4):                # 2^L slots, gap = n / 2^L
+            if L > logn:
+                continue
+            lgap = logn - L
+            gap = 1 << lgap
+            for sub in subsets_of(1 << L):
+                cases.append(pack_shape(rng, "pack", n, [j * gap for j in sub], lgap))
+    # random subsets beyond 8 slots, stray (non-slot) indices, NTT-only radices
+    for k in range(24 if quick else 400):
+        n = [16, 32, 16][k % 3]
+        logn = n.bit_length() - 1
+        lgap = rng.below(logn - 2) if k % 4 else rng.below(logn + 1)
+        gap = 1 << lgap
+        cnt = n // gap
+        sub = [j * gap for j in range(cnt) if rng.chance(1, 3 if k % 2 else 2)] or [rng.below(cnt) * gap]
+        if k % 6 == 5 and gap > 1:
+            sub = sorted(set(sub + [rng.below(n - 1) | 1]))          # an index that is not a slot: ignored by glwe_pack
+        if k % 12 == 11 and gap > 1:
+            sub = [1]                                                   # no slot at all: a.get(&0).unwrap() panics
+        cases.append(pack_shape(rng, "pack", n, sub, lgap, ntt_only=(k % 8 == 7)))
+    # the streaming packer: arrivals 0..n/2^lb-1, `slots` = the arrivals that carry a ciphertext
+    for n in ([8] if quick else [8, 16]):
+        logn = n.bit_length() - 1
+        for lb in range(0, logn):
+            cnt = n >> lb
+            subs = subsets_of(cnt) if cnt <= 8 else []
+            if quick and len(subs) > 40:
+                subs = [subs[rng.below(len(subs))] for _ in range(40)] + [subs[-1], subs[0]]
+            for sub in subs:
+                cases.append(pack_shape(rng, "packer", n, sub, lb))
+    for k in range(8 if quick else 120):
+        n = [16, 32][k % 2]
+        logn = n.bit_length() - 1
+        lb = rng.below(logn)
+        cnt = n >> lb
+        sub = [j for j in range(cnt) if rng.chance(1, 2)] or [rng.below(cnt)]
+        cases.append(pack_shape(rng, "packer", n, sub, lb, ntt_only=(k % 8 == 7)))
     return cases
 
 
@@ -302,7 +369,7 @@ def key_errors(c, p, rows, sk_in, sk_out):
     For an automorphism key the rows are encrypted under sigma_{p^-1}(s)."""
     n, b, dsize, rin = c["n"], c["bkey"], c["dsize"], c["rin"]
     tgt = sk_out
-    if c["op"] in AUTO or c["op"].startswith("trace"):
+    if c["op"] in AUTO or c["op"].startswith("trace") or c["op"] in PACK:
         ginv = inv_mod(p, 2 * n)
         tgt = [aut(s, ginv) for s in sk_out]
     size = len(rows[0][0])
@@ -334,7 +401,7 @@ def ks_bound(c, D, emax_num, emax_bits, sk_in, sk_out, a_bits_in):
     tot += rin * dnum * n * (1 << (dsize * b)) * ((emax_num << (D - emax_bits)) if D >= emax_bits else (emax_num >> (emax_bits - D)) + 1)
     # conversion of the input into the key radix (one unit of a_conv's last limb per column)
     a_size = ceil_div(a_bits_in, b)
-    if c["bin"] != c["bkey"] or c["op"].startswith("trace"):
+    if c["bin"] != c["bkey"] or c["op"].startswith("trace") or c["op"] in PACK:
         tot += (1 + l1_in) * u(b * a_size) * 2
     # limbs of the mask beyond dnum*dsize and of the body beyond the key size are dropped
     L = min(a_size, dnum * dsize)
@@ -426,12 +493,78 @@ def expected_and_bound(c, ans):
     return pout, exp, D, B, idxs, worst
 
 
+def p_slots(s):
+    out = []
+    if s == "-" or not s:
+        return out
+    for part in s.split("@"):
+        j, body = part.split(":", 1)
+        out.append((int(j), p_ct(body)))
+    return out
+
+
+def bitrev_offset(k, n, lb):
+    """rotation received by the k-th arrival of the streaming packer: sum_b bit_b(k) * n / 2^(lb+1+b)"""
+    off, b = 0, 0
+    while k >> b:
+        if (k >> b) & 1:
+            off += n >> (lb + 1 + b)
+        b += 1
+    return off
+
+
+def pack_expected_and_bound(c, ans):
+    """ring packing: glwe_pack puts the constant coefficient of the phase of input J (J a multiple of the gap) on
+    coefficient J and nothing anywhere else; the streaming packer puts the coefficients m*n/2^lb of its k-th arrival
+    on m*n/2^lb + bitrev_offset(k)."""
+    n, op = c["n"], c["op"]
+    logn = n.bit_length() - 1
+    keys = p_keys(ans["keys"])
+    ins = p_slots(ans["a"])
+    res_cols = p_ct(ans["res"])
+    sk = [p_poly(x) for x in ans["skin"].split(";")]
+    bin_, bout = c["bin"], c["bout"]
+    pout, bits_out = phase_num(res_cols, sk, bout, n)
+    skey = ceil_div(c["kkey"], c["bkey"])
+    a_bits = len(ins[0][1][0]) * bin_ if ins else bin_
+    D = max(a_bits, bits_out, c["bkey"] * skey) + 8
+    pout = rescale(pout, bits_out, D)
+    exp = [0] * n
+    if op == "pack":
+        gap = 1 << c["lgap"]
+        L = logn - c["lgap"]
+        for (J, cols) in ins:
+            if J % gap:
+                continue
+            ph, bits = phase_num(cols, sk, bin_, n)
+            exp[J] += ph[0] << (D - bits)
+    else:
+        lb = c["lgap"]
+        L = logn - lb
+        M = n >> lb
+        for (k, cols) in ins:
+            ph, bits = phase_num(cols, sk, bin_, n)
+            proj = [(x << (D - bits)) if t % M == 0 else 0 for t, x in enumerate(ph)]
+            exp = padd(exp, rot(proj, bitrev_offset(k, n, lb)))
+    worst = 0
+    for (p, rows) in keys:
+        e, _ = key_errors(c, p, rows, sk, sk)
+        worst = max(worst, e)
+    eb = c["bkey"] * skey
+    l1 = sum(sum(abs(x) for x in s) for s in sk)
+    c_in = dict(c, op="auto", bout=bin_, kout=a_bits)
+    unit = (ks_bound(c_in, D, worst, eb, sk, sk, a_bits) + ks_bound(dict(c, op="auto"), D, worst, eb, sk, sk, max(a_bits, bits_out))
+            + 8 * (1 + l1) * (max(1, (1 << D) >> a_bits) + max(1, (1 << D) >> bits_out)))
+    nops = len(ins) * L + logn + 2
+    return pout, exp, D, nops * unit, list(range(n)), worst
+
+
 def oracle(c, ans):
     """None if the implementation's own output satisfies the property, else a description"""
-    if c["op"] == "extract":
+    if c["op"] == "extract" or ans["res"].startswith("panic:"):
         return None
     try:
-        r = expected_and_bound(c, ans)
+        r = pack_expected_and_bound(c, ans) if c["op"] in PACK else expected_and_bound(c, ans)
     except OracleFail as e:
         return f"oracle: {e}"
     if r is None:
@@ -450,6 +583,10 @@ def class_key(c):
     rel = lambda x, y: "=" if x == y else ("<" if x < y else ">")
     a_size = ceil_div(ceil_div(c["kin"], c["bin"]) * c["bin"], c["bkey"])
     needed = ceil_div(a_size, c["dsize"])
+    if c["op"] in PACK:
+        cnt = c["n"] >> c["lgap"]
+        return (c["op"], c["n"], c["lgap"], tuple(c["slots"]) if cnt <= 8 else len(c["slots"]), c["rin"], c["dsize"], c["cls"], c["bkey"] > 17,
+                rel(c["bin"], c["bkey"]), rel(c["bout"], c["bkey"]))
     return (c["op"], c["n"], c["rin"], c["rout"], c["dsize"], a_size % c["dsize"] != 0, rel(c["dnum"], needed), rel(c["bin"], c["bkey"]),
             rel(c["bout"], c["bkey"]), rel(c["kout"], c["kin"]), c["cls"], c["bkey"] > 17)
 
@@ -573,6 +710,9 @@ def run(ctx):
         def bump(k):
             sh[k] = sh.get(k, 0) + 1
         for c in cases:
+            if c["op"] in PACK:
+                bump(f"{c['op']}: N={c['n']} lgap={c['lgap']} slots={len(c['slots'])}")
+                continue
             ck = class_key(c)
             bump(f"dsize={c['dsize']}")
             bump("a_size%dsize!=0" if ck[5] else "a_size%dsize==0")
